@@ -9,6 +9,7 @@ import (
 	"strings"
 
 	"github.com/AdguardTeam/urlfilter"
+	"github.com/AdguardTeam/urlfilter/filterlist"
 	"github.com/AdguardTeam/urlfilter/rules"
 )
 
@@ -77,6 +78,33 @@ func cmdReplayHosts(args []string) error {
 	}
 	evals, mism, lines := 0, 0, 0
 	var samples []string
+	// once per run: hosts lines that start more than 256 MiB into their list (the padding is never held in memory);
+	// where a line stands in its list - its storage index - must not matter
+	{
+		tail := "0.0.0.0 far-one.example far-two.example\n::1 far-six.example # comment\nfar-bare.example\n"
+		st, err := filterlist.NewRuleStorage([]filterlist.RuleList{newVirtualList(5, 65600, tail)})
+		if err != nil {
+			return err
+		}
+		eng := urlfilter.NewDNSEngine(st)
+		for _, q := range []struct {
+			name   string
+			v4, v6 int
+		}{{"far-one.example", 1, 0}, {"far-two.example", 1, 0}, {"far-six.example", 0, 1}, {"far-bare.example", 1, 0}, {"far-none.example", 0, 0}} {
+			evals++
+			var res *urlfilter.DNSResult
+			pv := safeCall(func() { res, _ = eng.Match(q.name) })
+			if pv != "" || len(res.HostRulesV4) != q.v4 || len(res.HostRulesV6) != q.v6 {
+				mism++
+				got := pv
+				if pv == "" {
+					got = fmt.Sprintf("v4=%d v6=%d", len(res.HostRulesV4), len(res.HostRulesV6))
+				}
+				out.write(map[string]any{"line": "(hosts lines behind 256 MiB of comments) " + tail, "entry": "DNSEngine.Match", "why": "query " + q.name,
+					"expected": fmt.Sprintf("v4=%d v6=%d", q.v4, q.v6), "got": got, "cause": "large-offset", "case": hostCase{}})
+			}
+		}
+	}
 	bad := func(c hostCase, line, entry, why string, exp, got any) {
 		mism++
 		cause := "other"
